@@ -91,6 +91,10 @@ def r71_sources(ctx):
         for p in ast.walk(fn):
             for ch in ast.iter_child_nodes(p):
                 pm[id(ch)] = p
+        gsets = sets
+        local_sets = {t.id for st in walk_shallow(fn) if isinstance(st, ast.Assign) and _is_set_expr(st.value, gsets)
+                      for t in st.targets if isinstance(t, ast.Name)}
+        sets = gsets | local_sets
         for x in walk_shallow(fn):
             if isinstance(x, ast.Call):
                 f = unparse(x.func)
@@ -130,6 +134,7 @@ def r71_sources(ctx):
                 ctx.ob('R7.1', f'{where_}:for-in-set', False)
                 ctx.finding('R7.1', f'{where_}:iterate:{unparse(x.iter)}', oc, x.iter, f'iteration over the set `{unparse(x.iter)}`: the order depends on hash values / object identities',
                             where=where_, module=mod)
+        sets = gsets
     # imports of entropy modules
     for mname, mod in prog.modules.items():
         for st in ast.walk(mod.tree):
@@ -144,10 +149,21 @@ def r71_sources(ctx):
     ctx.extra['nondeterminism_scan'] = counts
 
 
-def _is_set_expr(e, sets):
+def _is_keys_view(e):
+    return isinstance(e, ast.Call) and isinstance(e.func, ast.Attribute) and e.func.attr in ('keys', 'items') and not e.args
+
+
+def _is_set_expr(e, sets, depth=0):
     if isinstance(e, (ast.Set, ast.SetComp)):
         return True
     if isinstance(e, ast.Call) and unparse(e.func) in ('set', 'frozenset'):
+        return True
+    # set algebra on dict key views (d.keys() & other, d.keys() - other, ...) yields a plain set
+    if isinstance(e, ast.BinOp) and isinstance(e.op, (ast.BitAnd, ast.BitOr, ast.Sub, ast.BitXor)) and depth < 4:
+        if any(_is_keys_view(x) or _is_set_expr(x, sets, depth + 1) for x in (e.left, e.right)):
+            return True
+    if isinstance(e, ast.Call) and isinstance(e.func, ast.Attribute) and e.func.attr in ('union', 'intersection', 'difference', 'symmetric_difference') \
+            and depth < 4 and (_is_keys_view(e.func.value) or _is_set_expr(e.func.value, sets, depth + 1)):
         return True
     if isinstance(e, ast.Attribute) and e.attr in sets:
         return True
